@@ -27,6 +27,8 @@ ATTACH = {
     "network": "src/network.rs",
     "peer_record": "src/peer_record.rs",
     "bootstrap_manager": "src/bootstrap/manager.rs",
+    "dht_network_manager": "src/dht_network_manager.rs",
+    "transport_handle": "src/transport_handle.rs",
 }
 
 
